@@ -800,7 +800,16 @@ impl Cached for ZooH {
             4 => zoo::rx2().boxed(),
             5 => zoo::list().boxed(),
             6 => zoo::arith().boxed(),
-            _ => zoo::sexp().boxed(),
+            7 => zoo::sexp().boxed(),
+            8 => zoo::empty_err::valid().boxed(),
+            9 => zoo::empty_err::memo().boxed(),
+            10 => zoo::cheap_err::valid().boxed(),
+            11 => zoo::cheap_err::memo().boxed(),
+            12 => zoo::simple_err::valid().boxed(),
+            13 => zoo::simple_err::memo().boxed(),
+            14 => zoo::empty_err::sexp().boxed(),
+            15 => zoo::cheap_err::sexp().boxed(),
+            _ => zoo::simple_err::sexp().boxed(),
         }
     }
 }
@@ -819,7 +828,16 @@ pub fn with_zoo<'a, R>(z: usize, v: impl ZooVisitor<'a, R>) -> R {
         4 => v.visit(zoo::rx2),
         5 => v.visit(zoo::list),
         6 => v.visit(zoo::arith),
-        _ => v.visit(zoo::sexp),
+        7 => v.visit(zoo::sexp),
+        8 => v.visit(zoo::empty_err::valid),
+        9 => v.visit(zoo::empty_err::memo),
+        10 => v.visit(zoo::cheap_err::valid),
+        11 => v.visit(zoo::cheap_err::memo),
+        12 => v.visit(zoo::simple_err::valid),
+        13 => v.visit(zoo::simple_err::memo),
+        14 => v.visit(zoo::empty_err::sexp),
+        15 => v.visit(zoo::cheap_err::sexp),
+        _ => v.visit(zoo::simple_err::sexp),
     }
 }
 
@@ -981,6 +999,23 @@ fn nontrivial(results: &[OpResult], ops: &[Op]) -> bool {
 
 impl HistSim {
     fn record(&self, acc: &mut Acc, seed: u64, idx: u64, case: &HistCase, ran: &Ran) -> u64 {
+        acc.inc(&format!("subject.{}", match &case.subject {
+            Subject::Dyn { kind, .. } => format!("generated[{:?}]", kind),
+            Subject::Zoo { z } => format!("zoo::{}", zoo::ZOO_NAMES[*z]),
+            Subject::ZooCache { z } => format!("Cache[zoo::{}]", zoo::ZOO_NAMES[*z]),
+            Subject::CacheDyn { .. } => "Cache[generated]".into(),
+            Subject::DynRef { .. } => "&dyn-at-every-node".into(),
+        }));
+        if matches!(case.subject, Subject::ZooCache { .. } | Subject::CacheDyn { .. }) && case.reader_seed & 3 != 0 {
+            acc.inc("histories.inputs_in_reused_buffer(same address, other content)");
+        }
+        if let Subject::Dyn { grammar, .. } | Subject::CacheDyn { grammar } = &case.subject {
+            if gram::contains(grammar, &|x| matches!(x, G::Text(k) if *k >= 9)) {
+                acc.inc("histories.subject_with_regex");
+            } else if gram::contains(grammar, &|x| matches!(x, G::Text(_))) {
+                acc.inc("histories.subject_with_text_parsers");
+            }
+        }
         let mut d = fold(fold_bytes(3, subject_shown(&case.subject).as_bytes()), ops_digest(&case.ops));
         if ran.discarded {
             acc.inc("cases.discarded_reference_too_heavy");
